@@ -329,6 +329,9 @@ def callRobot (env : CharEnv) (n : Native) (args : List Value) (spans : List Spa
   match n, args, spans with
   -- ROBOT (src: robot.rs)
   | .robotMap, [v], [s1] => (castStr v s1 σ).bind fun s =>
+    -- a text of 2^63 bytes or more does not fit a 64-bit address space (Rust caps allocations at
+    -- isize::MAX): outside the resource envelope, like the statement budget
+    if 2 ^ 63 ≤ ulen s then .fuel else
     (match Robot.parse s with
      | some r => .ok (.obj (allocCell σ (.robot r)).1, (allocCell σ (.robot r)).2)
      | none => .ok (.null, σ))
